@@ -11,6 +11,8 @@ import HkModel.Drive.Fidelity
 import HkModel.Drive.Reload
 import HkModel.Drive.Publish
 import HkModel.Drive.Lex
+import HkModel.Drive.Crash
+import HkModel.Drive.Pull
 /-! `hkdriver <mode>`: reads protocol lines on stdin, answers one line per input line. -/
 open Hk
 
@@ -43,6 +45,13 @@ partial def loopAuth (h : IO.FS.Stream) (out : IO.FS.Stream) (st : DriveAuth.ASt
   out.putStrLn o
   loopAuth h out { st' with n := st'.n + 1, bad := if o == "ok" then st'.bad else st'.bad + 1 }
 
+partial def loopPull (h : IO.FS.Stream) (out : IO.FS.Stream) (st : DrivePull.PD) : IO DrivePull.PD := do
+  let line ← h.getLine
+  if line.isEmpty then return st
+  let (st', o) := DrivePull.step st line
+  out.putStrLn o
+  loopPull h out { st' with n := st'.n + 1, bad := if o == "ok" then st'.bad else st'.bad + 1 }
+
 def main (args : List String) : IO UInt32 := do
   let stdin ← IO.getStdin
   let stdout ← IO.getStdout
@@ -62,6 +71,11 @@ def main (args : List String) : IO UInt32 := do
   | ["reload"] => runPure DriveReload.processLine
   | ["publish"] => runPure DrivePublish.processLine
   | ["cfgfmt"] => runPure DriveLex.processLine
+  | ["crash"] => runPure DriveCrash.processLine
+  | ["pullops"] =>
+    let st ← loopPull stdin stdout {}
+    stdout.putStrLn ("SUMMARY {\"steps\":" ++ toString st.n ++ ",\"not_ok\":" ++ toString st.bad ++ "}")
+    return 0
   | ["auth"] =>
     let st ← loopAuth stdin stdout {}
     stdout.putStrLn ("SUMMARY {\"steps\":" ++ toString st.n ++ ",\"not_ok\":" ++ toString st.bad ++ "}")
